@@ -1704,9 +1704,10 @@ func (ctx *RenderContext) getAttribute(obj interface{}, attr string) (interface{
 
 		if entry.ptrMethod {
 			// Need a pointer to the struct
-			if isPtr {
-				// Object is already a pointer, use the original value
-				method = reflect.ValueOf(obj).Method(entry.methodIndex)
+			if isPtr && objValue.CanAddr() {
+				// Object is already a pointer: the method set is that of the plain
+				// pointer type *T (a defined pointer type, type P *T, has none)
+				method = objValue.Addr().Method(entry.methodIndex)
 			} else {
 				// Create a new pointer to the struct
 				ptrValue := reflect.New(objType)
